@@ -5,9 +5,10 @@ import json, os, re, shutil, subprocess, sys
 def sh(cmd, cwd): return subprocess.run(cmd, shell=True, cwd=cwd, stdout=subprocess.PIPE, stderr=subprocess.STDOUT, text=True)
 pid = sys.argv[1]; name = sys.argv[2] if len(sys.argv) > 2 else "agent-" + pid.lower()
 wt, out = "/tmp/seed/" + pid, "/tmp/seed/out-" + pid
+if len(sys.argv) > 4: wt, out = sys.argv[3], sys.argv[4]
 meta = json.load(open(out + "/meta.json"))
 cmd = meta["demo_cmd"]
-m = re.search(r"cargo test.*", cmd); cargo = m.group(0) if m else cmd
+m = re.search(r"cargo test[^(#\n`]*", cmd); cargo = (m.group(0) if m else cmd).strip()
 def demo():
     r = sh(cargo + " 2>&1", wt)
     ok = re.search(r"test result: ok\. [1-9]\d* passed", r.stdout) is not None and "FAILED" not in r.stdout
